@@ -5,8 +5,8 @@ import json, os, subprocess, sys, tempfile, shutil, concurrent.futures
 ENV = dict(os.environ, GOFLAGS="-mod=mod", GOPROXY="off", GOSUMDB="off", GOTOOLCHAIN="local"); ENV.pop("GOWORK", None)
 EV = os.environ.get("EVBIN", "/verif/bin/evcheck")
 sub = sys.argv[1] if len(sys.argv) > 1 else "based-"
-def run(rule, repo):
-    p = subprocess.run([EV, "-rules", rule, "-repo", repo, "-json"], capture_output=True, text=True, env=ENV)
+def run(rule, repo, cfg=None):
+    p = subprocess.run([EV, "-rules", rule, "-repo", repo, "-json"] + (["-config", cfg] if cfg else []), capture_output=True, text=True, env=ENV)
     try: return json.loads(p.stdout).get("obligations", [])
     except Exception: return None
 base_cache = {}
@@ -27,16 +27,16 @@ def one(c):
             open(f, "w").write(s)
         b = subprocess.run("go build ./...", shell=True, cwd=d, env=ENV, capture_output=True, text=True)
         if b.returncode: return c["name"], "DOES NOT BUILD " + b.stderr[-200:]
-        got = run(c["rule"], d)
+        got = run(c["rule"], d, c.get("config"))
         if got is None: return c["name"], "RUN FAILED"
-        basef = base_cache.get(c["rule"])
+        basef = base_cache.get((c["rule"], c.get("config")))
         for o in got:
             if o["verdict"] in ("fail", "undecided") and c["expect_key_contains"] in o["key"] and o["key"] not in basef: return c["name"], "fired"
         return c["name"], "DID NOT FIRE; failing: " + "; ".join(o["key"] for o in got if o["verdict"] in ("fail", "undecided") and o["key"] not in basef)[:300]
     finally:
         shutil.rmtree(d, ignore_errors=True)
 cs = [c for c in json.load(open("/verif/mutants/controls.json")) if sub in c["name"]]
-for r in sorted(set(c["rule"] for c in cs)):
-    base_cache[r] = set(o["key"] for o in (run(r, "/repo") or []) if o["verdict"] in ("fail", "undecided"))
+for r, cfg in sorted(set((c["rule"], c.get("config")) for c in cs), key=lambda x: (x[0], x[1] or "")):
+    base_cache[(r, cfg)] = set(o["key"] for o in (run(r, "/repo", cfg) or []) if o["verdict"] in ("fail", "undecided"))
 with concurrent.futures.ThreadPoolExecutor(max_workers=6) as ex:
     for name, res in ex.map(one, cs): print(name, "|", res)
